@@ -138,8 +138,8 @@ def gen_methods(rng, world, facts, allow_schedule=True):
     for _ in range(n - 1):
         ys.append(ys[-1] + rng.randint(1, 4))
     sched = [[y, rng.choice(methods)] for y in ys]
-    if rng.random() < 0.1:
-        rng.shuffle(sched)
+    if rng.random() < 0.2:
+        rng.shuffle(sched)  # the section may list the years in any order
     return None, sched
 
 
